@@ -11,7 +11,7 @@ META = {
                    "own key must be MAC-checked before it selects the opened key sum; a Key/Label pad that is looked up with an index carried in a "
                    "message does not count as a pad (the peer can have it applied to both values of a bit); and (R2.8) the equality tests that "
                    "make a peer-chosen Delta offset of an opened value detectable (LaAND hash, d-values, ..) are per element, never on a value "
-                   "folded over the elements of a received vector. Leakage through combinations of individually "
+                   "folded over the elements of a received vector. The OT sender only hides Delta if its pads are private: the entropy provenance rules of C06 (R6.1: Delta, labels, OT session generators are seeded from private randomness, never from a generator the peer shares) are part of this check. Leakage through combinations of individually "
                    "legitimate messages is value-level and not decided.",
     "assumptions": ["hashes / AEAD / OT sender are one-way for Delta", "whether a pad is unknown to a deviating peer is not analysed beyond 'not a message component'"],
 }
@@ -20,10 +20,12 @@ META = {
 def run(ctx, res):
     S = r2.get_sec(ctx)
     cs = r2.enrich(S)
+    r6.rule_entropy(S, res)
     r6.rule_delta_declass(S, res)
     r6.rule_label_declass(S, res)
     r2.rule_per_element(S, res, {"pre", "online"}, cs)
     r6.rule_generator_clone(S, res)
+    r2.rule_check_before_send(S, res, {"pre", "online"}, cs)
     mine = [c for c in cs if "fashare ver" in c.labels and {"CMP", "DELTA"} <= c.ing]
     opens = [s_ for s_ in S.inv.direct_sites() if "fashare di_bi" in (s_.label or []) and s_.body.owner.endswith("faand::fashare")]
     if not mine:
